@@ -368,7 +368,7 @@ def check(run, prog, tier):
     unit_u = 1
     for g in swaps + [qs]:
         for b, i, n in g.nodes():
-            if n.get("k") == "Bin" and n.get("op") == "/" and strip(n["L"]).get("d") == "param" and "size" in (strip(n["L"]).get("n") or "") and (const_val(n["R"]) or 0) > 1:
+            if n.get("k") == "Bin" and n.get("op") == "/" and strip(n["L"]).get("d") == "param" and "int" in (strip(n["L"]).get("t") or "") and (const_val(n["R"]) or 0) > 1:
                 unit_u = max(unit_u, const_val(n["R"]))
     # the same written as a countdown: `size -= u` per exchange; a byte-wise tail (`size--`, `size -= 1`) in the same
     # function moves the remainder, so the unit is 1 again
@@ -376,7 +376,7 @@ def check(run, prog, tier):
         steps = set()
         for b, i, n in g.nodes():
             tgt = strip(n["L"]) if n.get("k") == "Asg" else strip(n["e"]) if n.get("k") == "Un" and n.get("op") in ("--",) else None
-            if tgt is None or tgt.get("d") != "param" or "size" not in (tgt.get("n") or ""):
+            if tgt is None or tgt.get("d") != "param" or "int" not in (tgt.get("t") or "") or "*" in (tgt.get("t") or ""):
                 continue
             if n.get("k") == "Un":
                 steps.add(1)
